@@ -9,6 +9,8 @@ python3 - <<'PY'
 import sys
 sys.path.insert(0, '.')
 from checks import common
+from checks import gen_ties
+gen_ties.gen_all()          # coq/Gen/*/..Ops.v regenerated from /repo/src (tie theorems)
 common.write_coqproject()
 PY
 (cd coq && timeout 3000 make -j16 2>&1 | tail -5)
